@@ -182,12 +182,21 @@ def gen_equiv(seed: int, profile: str):
                 e = g.fn("shift", x, {"lit": r.choice([1, -1, 2])}, {"lit": None}, partition_by=part, arrange=keys)
             else:
                 e = g.fn("row_number", partition_by=part, arrange=keys)
-            a = S(id=T(), op="mutate", src=t, cols=[[nm, e]])
-            gb = S(id=T(), op="group_by", src=t, cols=part)
-            ar = S(id=T(), op="arrange", src=gb, by=keys)
-            m = S(id=T(), op="mutate", src=ar, cols=[[nm, _strip(_strip(e, "partition_by"), "arrange")]])
-            b = S(id=T(), op="ungroup", src=m)
-            pair(a, b)
+            if r.random() < 0.3:
+                # the empty grouping: arrange(o) >> mutate(f(x)) against mutate(f(x, arrange=o)) - the un-partitioned window path
+                e = _strip(e, "partition_by")
+                a = S(id=T(), op="mutate", src=t, cols=[[nm, e]])
+                ar = S(id=T(), op="arrange", src=t, by=keys)
+                b = S(id=T(), op="mutate", src=ar, cols=[[nm, _strip(e, "arrange")]])
+                g.features.add("window_docs_empty_group")
+                pair(a, b)
+            else:
+                a = S(id=T(), op="mutate", src=t, cols=[[nm, e]])
+                gb = S(id=T(), op="group_by", src=t, cols=part)
+                ar = S(id=T(), op="arrange", src=gb, by=keys)
+                m = S(id=T(), op="mutate", src=ar, cols=[[nm, _strip(_strip(e, "partition_by"), "arrange")]])
+                b = S(id=T(), op="ungroup", src=m)
+                pair(a, b)
     elif kind == "drop_select":
         vis = list(cur.visible)
         if len(vis) < 2:
